@@ -1447,6 +1447,11 @@ def run(ctx):
     ctx.rule("R-12.7", "every sleeping wait loop observes the external process", floor=6)
     ctx.rule("R-12.8", "frames handed to the engines by the on-the-fly readers do not share arrays (a frame's box and coordinates are its own)", floor=3)
     ctx.rule("R-12.15", "the configuration an engine starts from after a velocity reversal is the phase point itself: _reverse_velocities writes positions, box and identities exactly as read (shared with C19 R-19.5)", floor=5)
+    ctx.rule("R-12.22", "a CP2K / LAMMPS frame handed to the engine is complete: every parse of a line of the growing file is dominated by a completeness guard whose failing edge returns (shared with C13 R-13.1 / R-13.2)", floor=6)
+    from . import c13 as _c13b
+    from .shared import RuleProxy as _RP12n
+    for _rf in _c13b.readers(ctx.tree):
+        ctx.attempt(_c13b.text_reader, _RP12n(ctx, "R-12.22", " (the engine appends a frame whose last coordinate was cut short by the program's write buffer: the returned trajectory is not the one the program ran)"), _rf)
     ctx.rule("R-12.21", "the external program, started as a session leader, is stopped through its process group (os.killpg / terminate_process), never through the Popen object alone", floor=4)
     ctx.attempt(r1221, ctx)
     ctx.rule("R-12.20", "GROMACS: left-over .trr / .edr of the coming run's name are removed before mdrun starts (the remove list is computed after those names are in the output-file table)", floor=2)
@@ -1503,6 +1508,7 @@ def run(ctx):
 
 
 VARIANTS = [
+    B("c12-xyz-line-accepted-by-column-count-alone", ENGPARTS, 'if len(spl) != 4 or line[-1] != "\\n":', 'if len(spl) != 4 and line[-1] != "\\n":', "R-12.22", control=True, why="seeded C12_n"),
     B("c12-lammps-stopped-through-popen-object", LAMMPS, "                                os.killpg(os.getpgid(exe.pid), signal.SIGTERM)", "                                exe.terminate()", "R-12.21", control=True, why="seeded C12_m"),
     B("c12-gromacs-remove-list-before-names", GROMACS, '        for key in ("cpt", "edr", "log", "trr"):\n            out_files[key] = f"{name}.{key}"\n        # Remove some of these files if present (e.g. left over from a\n        # crashed simulation). This is so that GromacsRunner will not\n        # start reading a .trr left from a previous simulation.\n\n        remove = [val for key, val in out_files.items() if key != "tpr"]\n', '        remove = [val for key, val in out_files.items() if key != "tpr"]\n        for key in ("cpt", "edr", "log", "trr"):\n            out_files[key] = f"{name}.{key}"\n', "R-12.20", control=True, why="seeded C12_k"),
     B("c12-gromacs-stale-trr-kept", GROMACS, '        remove = [val for key, val in out_files.items() if key != "tpr"]\n', '        remove = [val for key, val in out_files.items() if key not in ("tpr", "trr")]\n', "R-12.20"),
